@@ -40,3 +40,49 @@ func VHIter() {
 	m := VGMapOf(keys, vals)
 	containers.VKeyIterStep(func() containers.IteratorWithKey[int, int] { return m.Iterator() }, keys, vals, m)
 }
+
+func vMapOnly() *Map[int, int] { ks, xs := maps.VPairs(false); return VGMapOf(ks, xs) }
+
+// VHEnum: Each/Any/All/Find/Select/Map with arbitrary predicate and mapping functions (C14).
+func VHEnum() {
+	m := vMapOnly()
+	containers.VEnumStep(containers.VEnum{Recv: m,
+		Seq: func(c any) ([]int, []int) {
+			r := c.(*Map[int, int])
+			ks := r.Keys()
+			xs := make([]int, len(ks))
+			for i, k := range ks {
+				xs[i], _ = r.Get(k)
+			}
+			return ks, xs
+		},
+		Each:   m.Each, Any: m.Any, All: m.All, Find: m.Find,
+		Select: func(f func(a, b int) bool) any { return m.Select(f) },
+		Map:    func(f func(a, b int) (int, int)) any { return m.Map(f) },
+		Build: func(as, bs []int) any {
+			r := New[int, int]()
+			for i := range as {
+				r.Put(as[i], bs[i])
+			}
+			return r
+		},
+		Touch: func(c any) {
+			r := c.(*Map[int, int])
+			for _, k := range r.Keys() {
+				x, _ := r.Get(k)
+				r.Put(k, x+1)
+			}
+			for _, k := range r.Keys() {
+				r.Remove(k)
+			}
+			r.Put(v.Int("tk"), v.Int("tv"))
+		},
+	})
+}
+
+// VHSnap: returned slices are snapshots, argument slices are copied, GetSortedValues leaves the container alone (C16).
+func VHSnap() {
+	ks, xs := maps.VPairs(false)
+	c := VGMapOf(ks, xs)
+	containers.VSnapStep(containers.VSnap{C: c, Keys: c.Keys, Mutate: []func(){c.Clear, func() { c.Put(v.Int("mk"), v.Int("mv")) }, func() { c.Remove(v.Int("mk")) }}})
+}
